@@ -47,13 +47,16 @@ AST_SHAPE = {'off': 'off', 'default': 'd', 'no526': 'no526', 'func-first': 'ff',
 # ... and every combination of the three AST-shaping options (two non-default configurations that differ in one of
 # them only must not share a cache file either).  For this module (no decorator-hostile decorators) LAST and
 # LAST_BEFORE_DECOR_HOSTILE place alike, so the shape keeps FIRST / not-FIRST only.
+# A fourth dimension that does NOT shape the AST (it is looked up at run time): two configurations differing in it
+# only may share a cache file - as long as the compiled module really does not depend on it.
 for _p in (True, False):
     for _f in ('FIRST', 'LAST', 'LAST_BEFORE_DECOR_HOSTILE'):
         for _t in ('FIRST', 'LAST', 'LAST_BEFORE_DECOR_HOSTILE'):
-            _n = f'p{int(_p)}-f{_f[0] + str(len(_f))}-t{_t[0] + str(len(_t))}'
-            CONFIGS[_n] = (f"dict(claw_is_pep526={_p}, claw_decor_place_func=BeartypeDecorPlace.{_f}, "
-                           f"claw_decor_place_type=BeartypeDecorPlace.{_t})")
-            AST_SHAPE[_n] = f'{"" if _p else "no526"}{"ff" if _f == "FIRST" else ""}{"tf" if _t == "FIRST" else ""}' or 'd'
+            for _x, _xsrc in (('x0', ''), ('x557', ', is_pep557_fields=True')):
+                _n = f'p{int(_p)}-f{_f[0] + str(len(_f))}-t{_t[0] + str(len(_t))}-{_x}'
+                CONFIGS[_n] = (f"dict(claw_is_pep526={_p}, claw_decor_place_func=BeartypeDecorPlace.{_f}, "
+                               f"claw_decor_place_type=BeartypeDecorPlace.{_t}{_xsrc})")
+                AST_SHAPE[_n] = f'{"" if _p else "no526"}{"ff" if _f == "FIRST" else ""}{"tf" if _t == "FIRST" else ""}' or 'd'
 
 MOD_V1 = '''
 import warnings
@@ -65,6 +68,8 @@ def deco(f):
     return f
 def cdeco(c):
     ORDER.append('type:' + ('beartype-inside' if hasattr(c.__dict__['m'], '__wrapped__') else 'beartype-outside-or-absent'))
+    return c
+def cdeco2(c):
     return c
 with warnings.catch_warnings(record=True) as _w:
     warnings.simplefilter('always')
@@ -92,6 +97,23 @@ with warnings.catch_warnings(record=True) as _w:
         RESULT['method'] = 'passed'
     except Exception as e:
         RESULT['method'] = 'raised:' + type(e).__name__
+import dataclasses
+@cdeco2
+@dataclasses.dataclass
+class Rec:
+    n: int
+    def m(self, a: int) -> int:
+        return a
+try:
+    Rec('bad')
+    RESULT['dataclass-init'] = 'passed'
+except Exception as e:
+    RESULT['dataclass-init'] = 'raised:' + type(e).__name__
+try:
+    Rec(1).n = 'bad'
+    RESULT['dataclass-set'] = 'passed'
+except Exception as e:
+    RESULT['dataclass-set'] = 'raised:' + type(e).__name__
 RESULT['order'] = ORDER
 RESULT['version'] = 1
 '''
@@ -315,11 +337,11 @@ def main():
             n = rng.choice((2, 2, 3, 3, 4, 5))
             confs = [rng.choice(list(CONFIGS)) for _ in range(n)]
             for i in range(1, n):
-                # half of the time the next run differs from the previous one in exactly one AST-shaping option
-                if confs[i - 1].startswith('p') and '-f' in confs[i - 1] and rng.random() < .5:
+                # most of the time the next run differs from the previous one in exactly one option
+                if confs[i - 1].startswith('p') and '-f' in confs[i - 1] and rng.random() < .7:
                     parts = confs[i - 1].split('-')
-                    j = rng.randrange(3)
-                    alts = [('p0', 'p1'), ('fF5', 'fL4', 'fL25'), ('tF5', 'tL4', 'tL25')][j]
+                    j = rng.choice((0, 1, 2, 3, 3))
+                    alts = [('p0', 'p1'), ('fF5', 'fL4', 'fL25'), ('tF5', 'tL4', 'tL25'), ('x0', 'x557')][j]
                     parts[j] = rng.choice([a for a in alts if a != parts[j]])
                     confs[i] = '-'.join(parts)
             edits = [rng.random() < .25 for _ in range(n)]
